@@ -287,8 +287,9 @@ def rule_result(prog, rep):
 
 def rule_defaults(prog, rep):
     """C28.DEFAULTS: a default value (variable default, input-field default) is turned into JSON by
-    graphql_value_to_json *before* it is coerced to the declared type - CoerceVariableValues uses
-    the default as it is.  So the conversion must be faithful for every literal the validator
+    graphql_value_to_json before anything else looks at it (input-field and argument defaults are
+    used as converted; a variable default is then coerced, see C28.DEFCOERCE).  So the conversion
+    must be faithful for every literal the validator
     accepts at that position: an integer literal is a valid Float / ID / custom-scalar default, so
     Int and Float literals go through the full-precision number parser of their own text
     (`as_str().parse()`), never through a narrowing conversion such as try_to_i32 / try_to_f64;
@@ -333,8 +334,37 @@ def rule_defaults(prog, rep):
                         "a %s literal used as a default value is converted by `%s`; defaults are not coerced again, so the conversion must keep every value the validator accepts (an integer literal beyond 32 bits is a valid Float / ID / custom-scalar default)" % (v, (sorted(others) or sorted(got) or ["nothing"])[0][:160]), g.loc())
 
 
+def rule_defcoerce(prog, rep):
+    """C28.DEFCOERCE: a defaulted variable conforms to its declared type like a provided one: the
+    value inserted for it is the result of the type-directed coercion (coerce_variable_value with
+    the variable's declared type), not the literal converted to JSON as it is written
+    (`$v: [Int] = 1` must give [1]; `$v: In = {r: 1}` must carry the defaults of In's fields)."""
+    from ..flow import derives
+    rep.floor("C28.DEFCOERCE", 1)
+    f = prog.fn(r"^apollo_compiler::resolvers::input_coercion::coerce_variable_values$")
+    ins = [c for c in f.live_calls() if re.search(r"Map<[^>]*>::insert$|JsonMap::insert$|::insert$", c.name) and len(c.args) == 3]
+    seen = 0
+    for c in ins:
+        _, via = derives(f, c.args[2], maxn=1500)
+        names = [x.name for x in via]
+        if not any(n.endswith("::graphql_value_to_json") for n in names):
+            continue  # the provided-value path
+        seen += 1
+        co = [x for x in via if x.name.endswith("::coerce_variable_value")]
+        ok = any(re.search(r"\.ty\b", f.sym(x.args[2])) and "graphql_value_to_json(" in f.sym(x.args[3]) for x in co)
+        rep.obligation(ok)
+        if ok:
+            rep.instance("C28.DEFCOERCE", "coerce_variable_values: a default value is converted to JSON and then coerced to the variable's declared type before it is inserted")
+        else:
+            rep.finding("C28.DEFCOERCE", f.name, "default-not-coerced",
+                        "the default value of a variable is inserted as `%s`: it is not coerced to the declared type, so `$v: [Int] = 1` yields 1 instead of [1] and an input object default misses the default values of its fields" % f.sym(c.args[2])[:100], c.loc())
+    if not seen:
+        raise Undecided("coerce_variable_values: the insertion of a default value was not found")
+
+
 def run(prog, rep):
     rule_scalars(prog, rep)
     rule_shape(prog, rep)
     rule_defaults(prog, rep)
+    rule_defcoerce(prog, rep)
     rule_result(prog, rep)
